@@ -136,6 +136,16 @@ def check(chk):
         good = len(a) == 2 and src(a[0].value) == res and src(a[1].targets[0]) == 'self._items' and src(a[1].value) == '%s._items' % src(a[0].targets[0]) and src(f.body[-1]) == 'return self'
         chk.judge(good, 'C33.inplace', f, '%s: self._items = (%s)._items; return self' % (op, res), 'in-place operator changed')
 
+    # the index of an ordered map is keyed in that map's own key space (pickle for OrderedMap, CQL encoding for OrderedMapSerializedKey)
+    chk.rule('C33.keyspace', 'no OrderedMap method reads _items / _index of another map: entries are taken over through _insert, which re-keys them')
+    om = m.cls('OrderedMap')
+    foreign = [a for f_ in om.body if isinstance(f_, ast.FunctionDef) for a in ast.walk(f_)
+               if isinstance(a, ast.Attribute) and a.attr in ('_items', '_index') and src(a.value) != 'self' and f_.name not in ('__eq__', '__ne__')]
+    chk.judge(not foreign, 'C33.keyspace', om, 'OrderedMap touches only its own _items / _index',
+              'another map\'s %s is copied (%s): a map decoded from a column keys its index by CQL encoding, a plain OrderedMap by pickle, so the copy looks keys up in the wrong key space'
+              % (sorted(set(a.attr for a in foreign)), [src(a) for a in foreign][:2]))
+
+
 
 def _alias_rule(chk, util):
     n = 0
